@@ -179,12 +179,16 @@ def emit_item(spec, repo, out, stats, vspec_path, cache):
         cache[fpath] = (src, rsx.code_mask(src))
     src, mask = cache[fpath]
     lo, hi, depth = 0, len(src), 0
-    if spec.impl and spec.impl.startswith("trait "):
-        blk = rsx.find_item(src, mask, "trait", spec.impl.split()[1])
-        lo, hi, depth = blk.body_open + 1, blk.end - 1, 0
-    elif spec.impl:
-        blk = rsx.find_impl(src, mask, spec.impl, nth=spec.nth)
-        lo, hi, depth = blk.body_open + 1, blk.end - 1, 0
+    if spec.impl:
+        # a '/'-separated container path: `mod structs/impl MidParseResult`, `trait X`, `impl ...`
+        for part in [x.strip() for x in spec.impl.split("/")]:
+            if part.startswith("trait "):
+                blk = rsx.find_item(src, mask, "trait", part.split()[1], lo, hi, 0)
+            elif part.startswith("mod "):
+                blk = rsx.find_item(src, mask, "mod", part.split()[1], lo, hi, 0)
+            else:
+                blk = rsx.find_impl(src, mask, part, lo, hi, nth=spec.nth)
+            lo, hi, depth = blk.body_open + 1, blk.end - 1, 0
     if spec.kind == "impl":
         item = rsx.find_impl(src, mask, spec.name.replace("~", " "), nth=spec.nth)
     else:
